@@ -25,7 +25,12 @@ enum Op {
     /// join; `stall`: Some(j) = the joining pipe accepts the library handshake + j
     /// more bytes, then withholds credit; `inner` runs while the join is stalled
     Join { stall: Option<usize>, inner: Option<Box<Op>> },
+    /// low 4 bits: peer; bits 4..: how — 0 connection closed, 1 reset, 2 its writes
+    /// fail with "connection reset" (read side silent), 3 its writes return 0
     Fail(usize),
+    /// the i-th peer is not reading (accepts j more bytes) when the call is made, and reads
+    /// again afterwards: it still has to be told
+    StalledCall { peer: usize, credit: usize, inner: Box<Op> },
 }
 
 fn op_json(o: &Op) -> Value {
@@ -34,6 +39,7 @@ fn op_json(o: &Op) -> Value {
         Op::Unsub(t) => json!({"unsub": TOPICS[*t]}),
         Op::Join { stall, inner } => json!({"join": {"stall": stall, "inner": inner.as_ref().map(|i| op_json(i))}}),
         Op::Fail(i) => json!({"fail": i}),
+        Op::StalledCall { peer, credit, inner } => json!({"stalled_call": {"peer": peer, "credit": credit, "inner": op_json(inner)}}),
         Op::Rejoin(i) => json!({"rejoin": i}),
     }
 }
@@ -48,6 +54,13 @@ fn op_from(v: &Value) -> Option<Op> {
     }
     if let Some(x) = v.get("fail") {
         return Some(Op::Fail(x.as_u64()? as usize));
+    }
+    if let Some(x) = v.get("stalled_call") {
+        return Some(Op::StalledCall {
+            peer: x["peer"].as_u64()? as usize,
+            credit: x["credit"].as_u64()? as usize,
+            inner: Box::new(op_from(&x["inner"])?),
+        });
     }
     if let Some(x) = v.get("rejoin") {
         return Some(Op::Rejoin(x.as_u64()? as usize));
@@ -174,6 +187,9 @@ fn check_point(ctx: &mut Ctx, m: &mut Model, peers: &[PeerC], what: &str, hist: 
 }
 
 async fn run(ctx: &mut Ctx, ops: &[Op], case: &Value) {
+    // identities differ from case to case: the socket walks its peers in hash order
+    let salt = hash_str(&case.to_string()) % 997;
+    let ident = |k: usize| format!("pub{k}-{salt}").into_bytes();
     let mut sock = Sock::new("SUB", None);
     let mut peers: Vec<PeerC> = Vec::new();
     let mut m = Model { set: Default::default(), counts: Default::default(), ok_set: true, ok_cnt: true };
@@ -210,15 +226,65 @@ async fn run(ctx: &mut Ctx, ops: &[Op], case: &Value) {
                 m.apply(op);
                 what = "after-call";
             }
-            Op::Fail(i) => {
-                if let Some(p) = peers.get_mut(*i) {
+            Op::Fail(code) => {
+                let (i, how) = (code & 15, code >> 4);
+                if let Some(p) = peers.get_mut(i) {
                     if !p.failed {
                         p.failed = true;
-                        p.conn.close_full(EndKind::Eof);
+                        match how {
+                            0 => p.conn.close_full(EndKind::Eof),
+                            1 => p.conn.close_full(EndKind::Reset),
+                            2 => p.conn.fail_writes_after(p.conn.tap_len(), crate::pipe::WriteFail::ConnectionReset),
+                            _ => p.conn.fail_writes_after(p.conn.tap_len(), crate::pipe::WriteFail::WriteZero),
+                        }
                         ctx.count("failing_peers");
+                        ctx.count(&format!("failing_peers/kind{}", how.min(3)));
                     }
                 }
                 what = "after-peer-failure";
+            }
+            Op::StalledCall { peer, credit, inner } => {
+                let live: Vec<usize> = peers.iter().enumerate().filter(|(_, p)| !p.failed).map(|(k, _)| k).collect();
+                if live.is_empty() {
+                    continue;
+                }
+                let idx = live[*peer % live.len()];
+                peers[idx].conn.set_credit(Some(*credit));
+                let released;
+                {
+                    let mut call = Managed::new(async {
+                        match &**inner {
+                            Op::Sub(t) => sock.subscribe(TOPICS[*t]).await,
+                            _ => sock.unsubscribe(TOPICS[match &**inner { Op::Unsub(t) => *t, _ => 0 }]).await,
+                        }
+                    });
+                    let first = call.drive().await;
+                    match first {
+                        Ok(Some(_)) => {
+                            ctx.count("calls_returning_while_a_peer_is_stalled");
+                            released = false;
+                        }
+                        Ok(None) => {
+                            // the call waits for the stalled peer: it reads again, the call completes
+                            ctx.count("calls_waiting_for_a_stalled_peer");
+                            peers[idx].conn.set_credit(None);
+                            released = true;
+                            if !matches!(call.drive().await, Ok(Some(_))) {
+                                ctx.violation_with("C13/subscribe-call-hangs", "subscribe still pending after the stalled peer read again".into(), case.clone());
+                                return;
+                            }
+                        }
+                        Err(_) => {
+                            ctx.violation_with("C13/subscribe-call-hangs", "subscribe spins while a peer is stalled".into(), case.clone());
+                            return;
+                        }
+                    }
+                }
+                if !released {
+                    peers[idx].conn.set_credit(None);
+                }
+                m.apply(inner);
+                what = "after-call-with-a-stalled-peer";
             }
             Op::Rejoin(i) => {
                 let Some(idx) = peers.iter().enumerate().filter(|(_, p)| !p.failed).map(|(k, _)| k).nth(*i % peers.len().max(1)) else {
@@ -227,7 +293,7 @@ async fn run(ctx: &mut Ctx, ops: &[Op], case: &Value) {
                 peers[idx].conn.close_full(EndKind::Eof);
                 peers[idx].failed = true;
                 let (conn, r, w) = Conn::new();
-                conn.feed(&rc::handshake("PUB", Some(format!("pub{idx}").as_bytes())));
+                conn.feed(&rc::handshake("PUB", Some(&ident(idx))));
                 match sim::complete(attach_future(sock.backend(), r, w)).await {
                     Ok(Ok(_)) => {
                         let hs_len = library_handshake_len(&conn.tap()).unwrap_or(0);
@@ -243,7 +309,7 @@ async fn run(ctx: &mut Ctx, ops: &[Op], case: &Value) {
             }
             Op::Join { stall, inner } => {
                 let (conn, r, w) = Conn::new();
-                conn.feed(&rc::handshake("PUB", Some(format!("pub{}", peers.len()).as_bytes())));
+                conn.feed(&rc::handshake("PUB", Some(&ident(peers.len()))));
                 if let Some(j) = stall {
                     conn.set_credit(Some(hs_probe + j));
                 }
@@ -347,11 +413,15 @@ fn gen_random(r: &mut Rng, len: usize) -> Vec<Op> {
                 inner: Some(Box::new(if r.chance(2, 3) { Op::Sub(r.below(4)) } else { Op::Unsub(r.below(4)) })),
             },
             _ => {
-                if !failed && npeers >= 2 {
+                if !failed && npeers >= 2 && r.chance(1, 2) {
                     failed = true;
-                    Op::Fail(r.below(npeers))
+                    Op::Fail(r.below(npeers.min(15)) + 16 * r.below(4))
                 } else {
-                    Op::Sub(r.below(4))
+                    Op::StalledCall {
+                        peer: r.below(npeers),
+                        credit: *r.pick(&[0usize, 1, 2, 3, 5, 40]),
+                        inner: Box::new(if r.chance(2, 3) { Op::Sub(r.below(4)) } else { Op::Unsub(r.below(4)) }),
+                    }
                 }
             }
         };
@@ -476,10 +546,10 @@ impl Prop for C13 {
                 let _ = pre;
             }
         }
-        for k in 0..tier.pick(6, 40) {
+        for k in 0..tier.pick(6, 200) {
             v.push(json!({"kind": "rig_joins", "peers": 8, "topics": 120, "seed": mix(seed ^ 0x13A ^ k as u64)}));
         }
-        for k in 0..tier.pick(4000, 40_000) {
+        for k in 0..tier.pick(4000, 400_000) {
             v.push(json!({"kind": "random", "seed": mix(seed ^ 0xC13 ^ k as u64), "len": 12}));
         }
         v
